@@ -268,15 +268,36 @@ def r4(db, rep):
             continue
         f = fs[0]
         key = q.split("::")[-1]
-        loops = [n for n in facts.fn_nodes(f) if n["k"] == "ForStmt"]
+        # a first-match forward scan, however the loop is written: the iterator starts at begin(), the loop goes on only
+        # while it != end() and stops at the first element whose option() equals the key - by a break / return in the
+        # body under `==`, or by the negated test in the loop condition - and the only step is ++it
+        from vlib import cond as _cond
+        loops = [n for n in facts.fn_nodes(f) if n["k"] in ("ForStmt", "WhileStmt")]
         ok = False
-        if loops:
+        if len(loops) == 1:
             l = loops[0]
-            txt = " ".join(facts.expr_str(x) for x in l["c"] if x is not None and x["k"] != "CompoundStmt")
-            body = [x for x in l["c"] if x is not None][-1]
-            has_break = any(x["k"] == "BreakStmt" for x in facts.walk(body))
-            eq = any(x["k"] in ("BinaryOperator", "CXXOperatorCallExpr") and x.get("op") == "==" and "option()" in facts.expr_str(x) for x in facts.walk(body))
-            ok = "begin()" in txt and "end()" in txt and has_break and eq
+            parts = [x for x in l["c"] if x is not None]
+            body = parts[-1]
+            lc = l["c"][-3] if l["k"] == "ForStmt" and len(l["c"]) >= 4 else ([x for x in l["c"][:-1] if x is not None] or [None])[-1]
+            heads = " ".join(facts.expr_str(x) for x in facts.fn_nodes(f) if x["k"] == "VarDecl" and x.get("c")) + " " + \
+                " ".join(facts.expr_str(x) for x in parts[:-1])
+            ctxt = facts.expr_str(facts.inline_locals(f, lc, all_types=True)) if lc is not None else ""
+            has_break = any(x["k"] in ("BreakStmt", "ReturnStmt") for x in facts.walk(body))
+            eq_body = any(x["k"] in ("BinaryOperator", "CXXOperatorCallExpr") and x.get("op") == "==" and "option()" in facts.expr_str(x) for x in facts.walk(body))
+            ne_cond = False
+            if lc is not None:
+                for op, a_, b_ in _cond.facts_of(f, lc, True):
+                    t_ = facts.expr_str(a_) + (facts.expr_str(b_) if b_ is not None else "")
+                    if "option()" not in t_:
+                        continue
+                    a0 = facts.strip_all(a_)
+                    if op == "!=" or (op == "false" and a0["k"] in ("CXXOperatorCallExpr", "BinaryOperator") and a0.get("op") == "==") or \
+                            (op == "true" and a0["k"] in ("CXXOperatorCallExpr", "BinaryOperator") and a0.get("op") == "!="):
+                        ne_cond = True
+            steps = [x for x in facts.fn_nodes(f) if (x["k"] in ("CXXOperatorCallExpr", "UnaryOperator") and x.get("op") in ("++", "--")) or
+                     (x["k"] in ("CXXOperatorCallExpr", "CompoundAssignOperator") and x.get("op") in ("+=", "-="))]
+            fwd = bool(steps) and all(x.get("op") == "++" for x in steps)
+            ok = "begin()" in heads and "end()" in ctxt and fwd and ((has_break and eq_body) or ne_cond)
         (rep.ok if ok else rep.violation)("R4-lookup-shape", key, facts.loc(f),
                                           "forward scan from begin(), stops at the first element whose option() equals the key (%d instantiations)" % len(fs)
                                           if ok else "the generic option search is no longer a first-match scan from begin()")
